@@ -542,6 +542,9 @@ func signShape(t *mTx, k *mKey, idx []int) (changed bool, err error) {
 // nonDataScript returns n pseudo-random bytes that are not a data-carrier script.
 func nonDataScript(r *prng.R, n int) []byte {
 	s := r.Bytes(n)
+	if n >= 3 && r.Chance(1, 6) { // looks like data once decoded into parts, is not data by its bytes
+		copy(s, prng.Pick(r, [][]byte{{0x01, 0x6a}, {0x01, 0x00, 0x01}, {0x00, 0x01, 0x6a}, {0x4c, 0x01, 0x6a}}))
+	}
 	if refmoney.IsData(s) {
 		s[0] = 0x51
 	}
